@@ -1,3 +1,5 @@
+pub mod flow;
+pub mod funcs;
 pub mod names;
 pub mod soup;
 pub mod syntax;
